@@ -383,6 +383,28 @@ def catalogue():
             lambda a, mk=mk: solve_ode_bvp(a["x"], a["fx"], [a["c0"], 0.3, a["c2"]], a["bd"], transform=mk(), initial_guess_y=a["guess"], tol=1e-6),
             post=lambda r, a: r(np.array([0.3, 0.9, 1.4])), callbacks=[("fx", "rhs"), ("c0", "coef0"), ("c2", "coef2")])
 
+    # coefficient patterns (added after seeded change C20-D was missed: the right-hand side divided in place only when
+    # every lower-order coefficient vanishes and the leading one is not 1): zero lower-order coefficients, unit and
+    # non-unit leading coefficient, orders 1 to 3, no transform and the identity transform
+    zero_low = {
+        "order1-zero-low": ([0.0, 4.0], [1.0], [[0, 0, 1.0]]),
+        "order2-zero-low": ([0.0, 0.0, 2.0], [1.0, -0.4], [[0, 0, 1.0], [1, 0, 0.3]]),
+        "order2-unit-lead": ([0.5, 0.0, 1.0], [1.0, -0.4], [[0, 0, 1.0], [1, 0, 0.3]]),
+        "order2-only-first": ([0.0, 0.6, 2.5], [1.0, -0.4], [[0, 0, 1.0], [1, 0, 0.3]]),
+        "order3-zero-low": ([0.0, 0.0, 0.0, 3.0], [1.0, -0.4, 0.2], [[0, 0, 1.0], [1, 0, 0.3], [0, 1, -0.4]]),
+    }
+    for cname, (cf, y0v, bdv) in zero_low.items():
+        def zargs(cf=cf, y0v=y0v, bdv=bdv):
+            return {"x_span": (0.2, 1.5), "coeffs": list(cf), "y0": list(y0v), "x": np.linspace(0.2, 1.5, 12), "bd": [list(b) for b in bdv],
+                    "guess": np.zeros((len(y0v), 12))}
+        for tname, mk in (("none", lambda: None), ("identity", lambda: rt.IdentityRTransform())):
+            add(f"solve_ode_ivp[{tname}, {cname}]", ["solve_ode_ivp"], zargs,
+                lambda a, mk=mk: solve_ode_ivp(a["x_span"], a["fx"], a["coeffs"], a["y0"], transform=mk()),
+                post=lambda r, a: r(np.array([0.3, 0.9, 1.4])), callbacks=[("fx", "rhs")])
+            add(f"solve_ode_bvp[{tname}, {cname}]", ["solve_ode_bvp"], zargs,
+                lambda a, mk=mk: solve_ode_bvp(a["x"], a["fx"], a["coeffs"], a["bd"], transform=mk(), initial_guess_y=a["guess"], tol=1e-6),
+                post=lambda r, a: r(np.array([0.3, 0.9, 1.4])), callbacks=[("fx", "rhs")])
+
     # ---- Poisson
     def poargs():
         from grid.onedgrid import GaussLegendre as GL
